@@ -1942,12 +1942,11 @@ def rest_array_from_part_list(
             if isinstance(part, Part):
                 na = rest_array_from_part(
                     part=part,
-                    unique_id_per_part=unique_id_per_part,
                     include_pitch_spelling=include_pitch_spelling,
                     include_key_signature=include_key_signature,
                     include_time_signature=include_time_signature,
                     include_grace_notes=include_grace_notes,
-                    inlcude_staff=include_staff,
+                    include_staff=include_staff,
                     collapse=collapse,
                 )
             elif isinstance(part, PartGroup):
@@ -1958,7 +1957,7 @@ def rest_array_from_part_list(
                     include_key_signature=include_key_signature,
                     include_time_signature=include_time_signature,
                     include_grace_notes=include_grace_notes,
-                    inlcude_staff=include_staff,
+                    include_staff=include_staff,
                     collapse=collapse,
                 )
         if unique_id_per_part:
